@@ -4,6 +4,7 @@ S=$1; shift
 cd /verif
 git -C /repo diff --quiet || { echo "/repo is dirty"; exit 2; }
 git -C /repo apply /verif/seeded/$S/patch.diff || exit 2
+trap "git -C /repo checkout -- . ; git -C /repo clean -fdq" EXIT INT TERM
 for c in "$@"; do
   out=$(./check $c 2>&1); rc=$?
   echo "[$S] check $c rc=$rc $(echo "$out" | grep -c '^VIOLATION') violation line(s): $(echo "$out" | grep '^VIOLATION' | head -1)"
